@@ -77,7 +77,7 @@ class Parser:
 
     def expr(self, minprec):
         k, v = self.peek()
-        if k == "id" and v in ("forall", "exists", "sum"):
+        if k == "id" and v in ("forall", "exists", "sum", "gsum"):
             self.next()
             var = self.next()[1]
             self.expect("in")
@@ -180,7 +180,7 @@ def parse_expr(s):
     return Parser(s).parse()
 
 
-LABEL_RE = re.compile(r"^\[([A-Za-z0-9_.\-]+)\]\s*(.*)$")
+LABEL_RE = re.compile(r"^\[([A-Za-z0-9_.:\-]+)\]\s*(.*)$")
 
 
 def split_label(s):
@@ -200,10 +200,13 @@ class FuncContract:
         self.requires = []   # (label, ast, text)
         self.ensures = []
         self.ensures_body = []  # checked when the body is verified, never assumed by callers (may name locals)
+        self.grequires = []     # tier-G view of the function, used by callers verified in group mode
+        self.gensures = []
         self.assigns = None  # list of ast, or None (= nothing may be assigned: pure)
         self.loops = {}      # K -> dict(invariant=[(label,ast,text)], modifies=[ast], decreases=ast, var=name)
         self.other = []      # (kind, text)
         self.trusted = False
+        self.variant = None
         self.lemmas = []     # (label, ast, text)
         self.opts = {}
 
@@ -218,6 +221,7 @@ class Contracts:
         self.funcs = {}      # (pkg, key) -> FuncContract
         self.globalinv = {}  # pkg -> [(label, ast, text)]
         self.lemmas = {}     # name -> dict(params=[(name, type)], ast, text, pkg)
+        self.variants = {}   # (pkg, key) -> [FuncContract]
         self.texts = {}      # path -> text (for hashing / evidence)
 
 
@@ -298,15 +302,25 @@ def parse_file(path, pkg, C):
                 C.globalinv.setdefault(pkg, []).append((lab, parse_expr(e), e))
                 fc = None
             elif kw == "func":
+                variant = None
+                mv = re.match(r"^(.*\))\s+as\s+(\w+)\s*$", rest)
+                if mv:
+                    rest, variant = mv.group(1), mv.group(2)
                 m = re.match(r"^(.*?)\(([^()]*)\)\s*$", rest)
                 if not m:
                     raise SyntaxError("bad func header")
                 key = m.group(1).strip()
                 ps = [p.strip() for p in m.group(2).split(",") if p.strip()]
                 fc = FuncContract(key, ps, pkg, ln)
-                if (pkg, key) in C.funcs:
-                    raise SyntaxError("duplicate contract for %s" % key)
-                C.funcs[(pkg, key)] = fc
+                fc.variant = variant
+                if variant:
+                    # a second contract of the same function, proved against the same body in another tier;
+                    # callers always use the primary contract
+                    C.variants.setdefault((pkg, key), []).append(fc)
+                else:
+                    if (pkg, key) in C.funcs:
+                        raise SyntaxError("duplicate contract for %s" % key)
+                    C.funcs[(pkg, key)] = fc
             else:
                 if fc is None:
                     raise SyntaxError("clause outside func block")
@@ -322,6 +336,12 @@ def parse_file(path, pkg, C):
                 elif kw == "ensures":
                     lab, e = split_label(rest)
                     fc.ensures.append((lab, parse_expr(e), e))
+                elif kw == "grequires":
+                    lab, e = split_label(rest)
+                    fc.grequires.append((lab, parse_expr(e), e))
+                elif kw == "gensures":
+                    lab, e = split_label(rest)
+                    fc.gensures.append((lab, parse_expr(e), e))
                 elif kw == "ensuresbody":
                     lab, e = split_label(rest)
                     fc.ensures_body.append((lab, parse_expr(e), e))
